@@ -35,14 +35,52 @@ package lineintersector
 //@   ensures [within] res != 0 ==> inBox(data.intersectionPoints[0][0], data.intersectionPoints[0][1], line1Start[0], line1Start[1], line1End[0], line1End[1]) && inBox(data.intersectionPoints[0][0], data.intersectionPoints[0][1], line2Start[0], line2Start[1], line2End[0], line2End[1]) && inBox(data.intersectionPoints[1][0], data.intersectionPoints[1][1], line1Start[0], line1Start[1], line1End[0], line1End[1]) && inBox(data.intersectionPoints[1][0], data.intersectionPoints[1][1], line2Start[0], line2Start[1], line2End[0], line2End[1])
 //@   modifies *data
 
-// the proper-crossing point is computed in floating point (normalised homogeneous coordinates with a
-// central-endpoint fallback): not under contract here, only its shape
+// ---- the location of a proper crossing, over the reals: normalised homogeneous coordinates give THE common point
+// of the two lines; for a proper crossing that point lies on both segments, so the envelope fallback is not taken
+
+//@ func safeHCoordinateIntersection
+//@   floats real
+//@   requires len(line1Start) >= 2 && len(line1End) >= 2 && len(line2Start) >= 2 && len(line2End) >= 2
+//@   requires [not-parallel] (line1Start[1] - line1End[1]) * (line2End[0] - line2Start[0]) - (line2Start[1] - line2End[1]) * (line1End[0] - line1Start[0]) != 0.0
+//@   ensures len(res) == 2 && fresh(res) && cross2(line1Start[0], line1Start[1], line1End[0], line1End[1], res[0], res[1]) == 0.0 && cross2(line2Start[0], line2Start[1], line2End[0], line2End[1], res[0], res[1]) == 0.0
+//@   modifies nothing
+
+// the four (private copies of the) endpoints are translated by the midpoint of the envelopes' intersection
+//@ func normalizeToEnvCentre
+//@   floats real
+//@   requires len(line1Start) >= 2 && len(line1End) >= 2 && len(line2Start) >= 2 && len(line2End) >= 2 && len(normPt) >= 2
+//@   requires base(line1Start) != base(line1End) && base(line1Start) != base(line2Start) && base(line1Start) != base(line2End) && base(line1Start) != base(normPt) && base(line1End) != base(line2Start) && base(line1End) != base(line2End) && base(line1End) != base(normPt) && base(line2Start) != base(line2End) && base(line2Start) != base(normPt) && base(line2End) != base(normPt)
+//@   ensures line1Start[0] == old(line1Start[0]) - normPt[0] && line1Start[1] == old(line1Start[1]) - normPt[1] && line1End[0] == old(line1End[0]) - normPt[0] && line1End[1] == old(line1End[1]) - normPt[1]
+//@   ensures line2Start[0] == old(line2Start[0]) - normPt[0] && line2Start[1] == old(line2Start[1]) - normPt[1] && line2End[0] == old(line2End[0]) - normPt[0] && line2End[1] == old(line2End[1]) - normPt[1]
+//@   modifies line1Start[0:2], line1End[0:2], line2Start[0:2], line2End[0:2], normPt[0:2]
+
+//@ func intersectionWithNormalization
+//@   floats real
+//@   requires len(line1Start) >= 2 && len(line1End) >= 2 && len(line2Start) >= 2 && len(line2End) >= 2
+//@   requires [not-parallel] (line1Start[1] - line1End[1]) * (line2End[0] - line2Start[0]) - (line2Start[1] - line2End[1]) * (line1End[0] - line1Start[0]) != 0.0
+//@   ensures len(res) == 2 && fresh(res) && cross2(line1Start[0], line1Start[1], line1End[0], line1End[1], res[0], res[1]) == 0.0 && cross2(line2Start[0], line2Start[1], line2End[0], line2End[1], res[0], res[1]) == 0.0
+//@   modifies nothing
+
+//@ func isInSegmentEnvelopes
+//@   floats real
+//@   requires data != nil && len(intersectionPoint) >= 2 && len(data.inputLines[0][0]) >= 2 && len(data.inputLines[0][1]) >= 2 && len(data.inputLines[1][0]) >= 2 && len(data.inputLines[1][1]) >= 2
+//@   ensures res <==> inBox(intersectionPoint[0], intersectionPoint[1], data.inputLines[0][0][0], data.inputLines[0][0][1], data.inputLines[0][1][0], data.inputLines[0][1][1]) && inBox(intersectionPoint[0], intersectionPoint[1], data.inputLines[1][0][0], data.inputLines[1][0][1], data.inputLines[1][1][0], data.inputLines[1][1][1])
+//@   modifies nothing
+
+// for a proper crossing (each segment's endpoints strictly on opposite sides of the other's line) the result is the
+// crossing point itself: on both segments
 //@ func intersection
 //@   floats real
-//@   trusted
 //@   requires data != nil && len(line1Start) >= 2 && len(line1End) >= 2 && len(line2Start) >= 2 && len(line2End) >= 2
-//@   ensures len(res) >= 2 && fresh(res)
+//@   requires [input-lines] data.inputLines[0][0] == line2Start && data.inputLines[0][1] == line2End && data.inputLines[1][0] == line1Start && data.inputLines[1][1] == line1End
+//@   requires [proper] (cross2(line1Start[0], line1Start[1], line1End[0], line1End[1], line2Start[0], line2Start[1]) > 0.0 && cross2(line1Start[0], line1Start[1], line1End[0], line1End[1], line2End[0], line2End[1]) < 0.0) || (cross2(line1Start[0], line1Start[1], line1End[0], line1End[1], line2Start[0], line2Start[1]) < 0.0 && cross2(line1Start[0], line1Start[1], line1End[0], line1End[1], line2End[0], line2End[1]) > 0.0)
+//@   requires [proper2] (cross2(line2Start[0], line2Start[1], line2End[0], line2End[1], line1Start[0], line1Start[1]) > 0.0 && cross2(line2Start[0], line2Start[1], line2End[0], line2End[1], line1End[0], line1End[1]) < 0.0) || (cross2(line2Start[0], line2Start[1], line2End[0], line2End[1], line1Start[0], line1Start[1]) < 0.0 && cross2(line2Start[0], line2Start[1], line2End[0], line2End[1], line1End[0], line1End[1]) > 0.0)
+//@   ensures len(res) >= 2 && fresh(res) && onSeg(res[0], res[1], line1Start[0], line1Start[1], line1End[0], line1End[1]) && onSeg(res[0], res[1], line2Start[0], line2Start[1], line2End[0], line2End[1])
 //@   modifies nothing
+//@   at stmt1: use crossMeets(line1Start[0], line1Start[1], line1End[0], line1End[1], line2Start[0], line2Start[1], line2End[0], line2End[1])
+//@   at stmt1: use paramOnSeg(line1Start[0], line1Start[1], line1End[0], line1End[1], line1Start[0] + crossT(line1Start[0], line1Start[1], line1End[0], line1End[1], line2Start[0], line2Start[1], line2End[0], line2End[1]) * (line1End[0] - line1Start[0]), line1Start[1] + crossT(line1Start[0], line1Start[1], line1End[0], line1End[1], line2Start[0], line2Start[1], line2End[0], line2End[1]) * (line1End[1] - line1Start[1]), crossT(line1Start[0], line1Start[1], line1End[0], line1End[1], line2Start[0], line2Start[1], line2End[0], line2End[1]))
+//@   at stmt1: use paramOnSeg(line2Start[0], line2Start[1], line2End[0], line2End[1], line2Start[0] + crossU(line1Start[0], line1Start[1], line1End[0], line1End[1], line2Start[0], line2Start[1], line2End[0], line2End[1]) * (line2End[0] - line2Start[0]), line2Start[1] + crossU(line1Start[0], line1Start[1], line1End[0], line1End[1], line2Start[0], line2Start[1], line2End[0], line2End[1]) * (line2End[1] - line2Start[1]), crossU(line1Start[0], line1Start[1], line1End[0], line1End[1], line2Start[0], line2Start[1], line2End[0], line2End[1]))
+//@   at stmt1: use linesMeetOnce(line1Start[0], line1Start[1], line1End[0], line1End[1], line2Start[0], line2Start[1], line2End[0], line2End[1], intPt[0], intPt[1], line1Start[0] + crossT(line1Start[0], line1Start[1], line1End[0], line1End[1], line2Start[0], line2Start[1], line2End[0], line2End[1]) * (line1End[0] - line1Start[0]), line1Start[1] + crossT(line1Start[0], line1Start[1], line1End[0], line1End[1], line2Start[0], line2Start[1], line2End[0], line2End[1]) * (line1End[1] - line1Start[1]))
 
 //@ func RobustLineIntersector.computeLineOnLineIntersection
 //@   floats real
@@ -50,9 +88,10 @@ package lineintersector
 //@   requires data != nil && len(line1Start) >= 2 && len(line1End) >= 2 && len(line2Start) >= 2 && len(line2End) >= 2
 //@   requires [non-degenerate] !(line1Start[0] == line1End[0] && line1Start[1] == line1End[1]) && !(line2Start[0] == line2End[0] && line2Start[1] == line2End[1])
 //@   requires len(data.intersectionPoints[0]) >= 2 && len(data.intersectionPoints[1]) >= 2
+//@   requires [input-lines] data.inputLines[0][0] == line2Start && data.inputLines[0][1] == line2End && data.inputLines[1][0] == line1Start && data.inputLines[1][1] == line1End
 //@   requires base(data.intersectionPoints[0]) != base(line1Start) && base(data.intersectionPoints[0]) != base(line1End) && base(data.intersectionPoints[0]) != base(line2Start) && base(data.intersectionPoints[0]) != base(line2End)
 //@   ensures [class] data.intersectionType == segClass(line1Start[0], line1Start[1], line1End[0], line1End[1], line2Start[0], line2Start[1], line2End[0], line2End[1])
-//@   ensures [endpoint] data.intersectionType == 1 && touches(line1Start[0], line1Start[1], line1End[0], line1End[1], line2Start[0], line2Start[1], line2End[0], line2End[1]) ==> onSeg(data.intersectionPoints[0][0], data.intersectionPoints[0][1], line1Start[0], line1Start[1], line1End[0], line1End[1]) && onSeg(data.intersectionPoints[0][0], data.intersectionPoints[0][1], line2Start[0], line2Start[1], line2End[0], line2End[1])
+//@   ensures [point-exact] data.intersectionType == 1 ==> onSeg(data.intersectionPoints[0][0], data.intersectionPoints[0][1], line1Start[0], line1Start[1], line1End[0], line1End[1]) && onSeg(data.intersectionPoints[0][0], data.intersectionPoints[0][1], line2Start[0], line2Start[1], line2End[0], line2End[1])
 //@   ensures [proper] data.isProper <==> data.intersectionType == 1 && !touches(line1Start[0], line1Start[1], line1End[0], line1End[1], line2Start[0], line2Start[1], line2End[0], line2End[1])
 //@   modifies *data, data.intersectionPoints[0]
 //@   at stmt23: assert data.intersectionPoints[0][0] == line1Start[0] && data.intersectionPoints[0][1] == line1Start[1]
@@ -75,6 +114,7 @@ package lineintersector
 //@   at stmt33: use crossSwap(line1Start[0], line1Start[1], line1End[0], line1End[1], line2End[0], line2End[1])
 //@   at stmt33: use touchOnSeg(line2Start[0], line2Start[1], line2End[0], line2End[1], line1End[0], line1End[1], line1Start[0], line1Start[1])
 //@   at stmt33: assert onSeg(data.intersectionPoints[0][0], data.intersectionPoints[0][1], line1Start[0], line1Start[1], line1End[0], line1End[1]) && onSeg(data.intersectionPoints[0][0], data.intersectionPoints[0][1], line2Start[0], line2Start[1], line2End[0], line2End[1])
+//@   at stmt35: assert onSeg(data.intersectionPoints[0][0], data.intersectionPoints[0][1], line1Start[0], line1Start[1], line1End[0], line1End[1]) && onSeg(data.intersectionPoints[0][0], data.intersectionPoints[0][1], line2Start[0], line2Start[1], line2End[0], line2End[1])
 
 //@ func lineintersection.NewResult
 //@   ensures res.intersectionType == intersectionType && res.intersection == intersection
@@ -88,7 +128,7 @@ package lineintersector
 //@   requires [non-degenerate] !(line1Start[0] == line1End[0] && line1Start[1] == line1End[1]) && !(line2Start[0] == line2End[0] && line2Start[1] == line2End[1])
 //@   ensures [class] res.intersectionType == segClass(line1Start[0], line1Start[1], line1End[0], line1End[1], line2Start[0], line2Start[1], line2End[0], line2End[1])
 //@   ensures [count] len(res.intersection) == res.intersectionType
-//@   ensures [endpoint] res.intersectionType == 1 && touches(line1Start[0], line1Start[1], line1End[0], line1End[1], line2Start[0], line2Start[1], line2End[0], line2End[1]) ==> onSeg(res.intersection[0][0], res.intersection[0][1], line1Start[0], line1Start[1], line1End[0], line1End[1]) && onSeg(res.intersection[0][0], res.intersection[0][1], line2Start[0], line2Start[1], line2End[0], line2End[1])
+//@   ensures [point-exact] res.intersectionType == 1 ==> onSeg(res.intersection[0][0], res.intersection[0][1], line1Start[0], line1Start[1], line1End[0], line1End[1]) && onSeg(res.intersection[0][0], res.intersection[0][1], line2Start[0], line2Start[1], line2End[0], line2End[1])
 //@   modifies nothing
 
 // ---- the non-robust strategy: agreement on whether the segments intersect at all (over the reals)
